@@ -213,6 +213,8 @@ def run_unit(unit, ctx):
                     ctx.count("skipped_24h_anchor_nominal_bounded_end")
                     continue
                 for via in ("ctor", "parser"):
+                    if via == "parser" and recur.mixed_sign(d):
+                        continue   # a mixed-sign duration has no text form (C10 is about single-signed durations)
                     desc = {"fmt": fmt, "n": n, "anchor": anchor, "dur": d, "via": via}
                     ctx.state_count += 1
                     ctx.sample(desc)
